@@ -562,6 +562,71 @@ def chord_timing(d, s, cap):
     return ('bt', [b.time for b in uniq], steps)
 
 
+_TABLE_CACHE = {}
+
+
+def oracle_chord_tables(np, ci, d, s, cap, fl, kc, tr, C):
+    """"its own model": the three tables handed to the key-chord Viterbi must be the HMM that the DOCUMENTED parameters
+    of infer_chords_for_sequence define (computed here from the chord / key tables and the parameters the caller passed):
+    P(chord | key) ∝ (1-p)^#in-key * p^#out-of-key, transitions by key_change_prob / chord_change_prob, emission =
+    concentration * <frame pitch vector, unit chord vector>."""
+    import inspect
+    sig = inspect.signature(ci.infer_chords_for_sequence)
+    par = {k: v.default for k, v in sig.parameters.items() if v.default is not inspect.Parameter.empty}
+    par.update(PARAM_SETS[d['params']])
+    pout, kcp, ccp, conc = (par['chord_pitch_out_of_key_prob'], par['key_change_prob'], par['chord_change_prob'],
+                            par['chord_note_concentration'])
+    chords = list(ci._CHORDS)
+    if len(chords) != C or kc.shape != (12, C) or tr.shape != (12 * C, 12 * C):
+        return None     # patched / cut-down tables are handled by the table streams
+    key = (tuple(map(str, chords)), pout, kcp, ccp)
+    if key not in _TABLE_CACHE:
+        with np.errstate(divide='ignore', invalid='ignore'):
+            n_in, n_out = np.zeros([12, C]), np.zeros([12, C])
+            vec = np.zeros([C, 12])
+            for k in range(12):
+                kp = set((k + o) % 12 for o in ci._KEY_PITCHES)
+                for i, ch in enumerate(chords):
+                    if i == 0:
+                        continue
+                    cp = set((ch[0] + o) % 12 for o in ci._CHORD_KIND_PITCHES[ch[1]])
+                    n_in[k, i], n_out[k, i] = len(cp & kp), len(cp - kp)
+            for i, ch in enumerate(chords):
+                if i:
+                    for o in ci._CHORD_KIND_PITCHES[ch[1]]:
+                        vec[i, (ch[0] + o) % 12] = 1.0
+                    vec[i] /= np.sqrt((vec[i] ** 2).sum())
+            dist = (1 - pout) ** n_in * pout ** n_out
+            dist = dist / dist.sum(axis=1)[:, None]
+            T = np.zeros([12 * C, 12 * C])
+            for k1 in range(12):
+                for k2 in range(12):
+                    blk = T[k1 * C:(k1 + 1) * C, k2 * C:(k2 + 1) * C]
+                    if k1 != k2:
+                        blk[:, :] = (kcp / 11 * dist[k2])[None, :]
+                    else:
+                        blk[:, :] = (1 - kcp) * ccp * (dist[k2][None, :] + dist[k2][:, None] / (C - 1))
+                        blk[np.arange(C), np.arange(C)] = (1 - kcp) * (1 - ccp)
+            _TABLE_CACHE.clear()
+            _TABLE_CACHE[key] = (np.log(dist), np.log(T), vec)
+    KC, T, vec = _TABLE_CACHE[key]
+    bad = close_tables(np, kc, KC)
+    if bad:
+        return 'the chord-given-key table used by chord inference is not the one chord_pitch_out_of_key_prob=%r defines: entry %r' % (pout, bad)
+    bad = close_tables(np, tr, T)
+    if bad:
+        return ('the key-chord transition table used by chord inference is not the one key_change_prob=%r, '
+                'chord_change_prob=%r define: entry %r' % (kcp, ccp, bad))
+    if cap.frames_arg:
+        with np.errstate(divide='ignore', invalid='ignore'):
+            npv = ci.sequence_note_pitch_vectors(s, cap.frames_arg[0])
+            E = conc * npv.dot(vec.T)
+        bad = close_tables(np, fl, E, tol=1e-7)
+        if bad:
+            return 'the frame likelihood table used by chord inference is not chord_note_concentration=%r times the chord match: entry %r' % (conc, bad)
+    return None
+
+
 def oracle_chords(np, d, res):
     """the property statement on the result of infer_chords_for_sequence (independent of the model)"""
     from note_seq import chord_inference as ci
@@ -579,6 +644,9 @@ def oracle_chords(np, d, res):
     if np.isnan(fl).any() or np.isnan(kc).any() or np.isnan(tr).any():
         return None     # NaN tables (0 * inf in a parameter corner) are outside the property's quantifier
     r = oracle_kc(np, path, fl, kc, tr, C)
+    if r:
+        return r
+    r = oracle_chord_tables(np, ci, d, s, cap, fl, kc, tr, C)
     if r:
         return r
     tm = chord_timing(d, s, cap)
@@ -684,6 +752,83 @@ def known_f_c19_1(d, pitch):
     return any(n[1] == n[2] == d['total_time'] and n[0] == pitch and not n[5] for n in d['notes'])
 
 
+def close_tables(np, a, b, tol=1e-9):
+    """entrywise: both -inf, both nan, or within relative `tol` (absolute near zero); returns the first bad index or None"""
+    a, b = np.asarray(a, dtype=float), np.asarray(b, dtype=float)
+    if a.shape != b.shape:
+        return ('shape', a.shape, b.shape)
+    with np.errstate(invalid='ignore'):
+        same = (a == b) | (np.isnan(a) & np.isnan(b)) | (np.abs(a - b) <= tol * np.maximum(1.0, np.maximum(np.abs(a), np.abs(b))))
+    if same.all():
+        return None
+    i = tuple(int(x) for x in np.argwhere(~same)[0])
+    return (i, float(a[i]), float(b[i]))
+
+
+def oracle_melody_tables(np, d, orig, real, total_time, pitches, fl, tr):
+    """"its own model": the tables the real Viterbi was run on must be the melody HMM that the DOCUMENTED parameters
+    of infer_melody_for_sequence define for this sequence, computed here from scratch (plain loops, from the docstrings:
+    Cauchy-like interval prior normalised over the 128 pitches and scaled by 1 - rest_prob, uniform onset after rest,
+    sustain free, per-frame emission = rest / onset / sustain probabilities to the power of the frame duration)."""
+    import inspect
+    from note_seq import melody_inference as mi
+    sig = inspect.signature(mi.infer_melody_for_sequence)
+    par = {k: v.default for k, v in sig.parameters.items() if v.default is not inspect.Parameter.empty}
+    par.update(d['params'])
+    scale, rest = par['melody_interval_scale'], par['rest_prob']
+    non_max, non_empty_rest, missing = (par['instantaneous_non_max_pitch_prob'], par['instantaneous_non_empty_rest_prob'],
+                                        par['instantaneous_missing_pitch_prob'])
+    want_p = sorted(set(n.pitch for n in real))
+    if list(pitches) != want_p:
+        return 'melody states are over pitches %r, the sequence has %r' % (list(pitches), want_p)
+    n = len(want_p)
+    # --- transition table
+    with np.errstate(divide='ignore', invalid='ignore'):
+        f = lambda iv: 1.0 / (1.0 + (iv / scale) ** 2)
+        T = np.zeros([1 + 2 * n, 1 + 2 * n])
+        T[0, 0] = 1.0
+        T[0, 1:n + 1] = 1.0 / 128
+        for i, p in enumerate(want_p):
+            norm = sum(f(q - p) for q in range(128))
+            for row in (1 + i, 1 + n + i):
+                T[row, 0] = rest
+                for j, q in enumerate(want_p):
+                    T[row, 1 + j] = f(q - p) / norm * (1 - rest)
+                T[row, 1 + n + i] = 1.0
+        T = np.log(T)
+    bad = close_tables(np, tr, T)
+    if bad:
+        return ('the transition table used by melody inference is not the one its parameters define '
+                '(melody_interval_scale=%r, rest_prob=%r): entry %r' % (scale, rest, bad))
+    # --- frames: boundaries are the distinct note starts/ends strictly inside (0, total_time)
+    times = sorted(set([x.start_time for x in real] + [x.end_time for x in real]) - {0.0, total_time})
+    bounds = [0.0] + times + [total_time]
+    nf = len(times) + 1
+    if fl.shape != (nf, 1 + 2 * n):
+        return 'frame likelihood table has shape %r, expected %r' % (fl.shape, (nf, 1 + 2 * n))
+    import bisect
+    on = np.zeros([nf, n], dtype=bool)
+    act = np.zeros([nf, n], dtype=bool)
+    for x in real:
+        a, b = bisect.bisect_right(times, x.start_time), bisect.bisect_left(times, x.end_time)
+        on[a, want_p.index(x.pitch)] = True
+        act[a:b + 1, want_p.index(x.pitch)] = True
+    E = np.zeros([nf, 1 + 2 * n])
+    for fr in range(nf):
+        E[fr, 0] = non_empty_rest if act[fr].any() else 1 - non_empty_rest
+        for j in range(n):
+            top = non_max if act[fr, j + 1:].any() else 1 - non_max
+            E[fr, 1 + j] = top if on[fr, j] else 0.0
+            E[fr, 1 + n + j] = 0.0 if on[fr, j] else top * ((1 - missing) if act[fr, j] else missing)
+    with np.errstate(divide='ignore', invalid='ignore'):
+        E = np.array([bounds[i + 1] - bounds[i] for i in range(nf)])[:, None] * np.log(E)
+    bad = close_tables(np, fl, E)
+    if bad:
+        return ('the frame likelihood table used by melody inference is not the one its parameters define '
+                '(non_max=%r, non_empty_rest=%r, missing=%r): entry %r' % (non_max, non_empty_rest, missing, bad))
+    return None
+
+
 def oracle_melody(np, d, res):
     from note_seq import constants
     if res['err'] is not None:
@@ -709,6 +854,9 @@ def oracle_melody(np, d, res):
             return f
     if cap.mel:
         pitches, fl, tr, result = cap.mel[0]
+        r = oracle_melody_tables(np, d, orig, real, s.total_time, pitches, fl, tr)
+        if r:
+            return r
         if np.isnan(fl).any() or np.isnan(tr).any():
             return None
         if (fl == np.inf).any() or (tr == np.inf).any():
